@@ -252,3 +252,100 @@ theorem applyOps_length_le (size : Nat) (ops : List (DqOp α)) : ∀ l : List α
     cases ho : o.apply size l with
     | none => simpa using h
     | some l' => simpa using DqOp.apply_length_le size o l l' h ho
+
+/-! ### stretches of the loop without a yield (hop ≤ 0, size 0) -/
+
+/-- what a `deque(maxlen=size)` holding `res` holds after receiving `xs` -/
+def pushAll (size : Nat) (res xs : List α) : List α := xs.foldl (dqPush size) res
+
+theorem lastSz_drop_append (size : Nat) (l ys : List α) :
+    lastSz size (l.drop (l.length - size) ++ ys) = lastSz size (l ++ ys) := by
+  unfold lastSz
+  rw [← List.drop_append_of_le_length (by omega), List.drop_drop]
+  congr 1
+  simp only [List.length_append, List.length_drop]
+  omega
+
+theorem pushAll_eq (size : Nat) : ∀ (xs res : List α), res.length ≤ size →
+    pushAll size res xs = lastSz size (res ++ xs) := by
+  intro xs
+  induction xs with
+  | nil =>
+    intro res h
+    have h0 : res.length - size = 0 := by omega
+    simp [pushAll, lastSz, h0]
+  | cons x xs ih =>
+    intro res h
+    have hl : (dqPush size res x).length ≤ size := by rw [dqPush_length]; omega
+    have := ih (dqPush size res x) hl
+    simp only [pushAll, List.foldl_cons] at this ⊢
+    rw [this]
+    unfold dqPush
+    simp only
+    rw [lastSz_drop_append]
+    simp
+
+theorem gloopEv_quiet (size : Nat) (last r : Int) (rInt : Bool) :
+    ∀ (xs : List α) (s : GState Int α) (n : Nat),
+      0 ≤ s.idx → (last < s.idx ∨ s.idx + xs.length ≤ last) →
+      gloopEv size last r rInt s n xs = ([], ⟨pushAll size s.res xs, s.idx + xs.length, s.isInt⟩) := by
+  intro xs
+  induction xs with
+  | nil => intro s n _ _; simp [gloopEv, pushAll]
+  | cons x xs ih =>
+    intro s n h0 hq
+    have h1 : ¬ s.idx < 0 := by omega
+    have h2 : ¬ s.idx = last := by
+      simp only [List.length_cons] at hq
+      omega
+    have hs : gstep size last r rInt s x = (⟨dqPush size s.res x, s.idx + 1, s.isInt⟩, none) := by
+      simp only [gstep, if_neg h1, if_neg h2]
+    simp only [gloopEv, hs]
+    rw [ih _ (n + 1) (by show 0 ≤ s.idx + 1; omega) (by
+      show last < s.idx + 1 ∨ s.idx + 1 + (xs.length : Int) ≤ last
+      simp only [List.length_cons] at hq
+      omega)]
+    simp only [Option.toList_none, List.map_nil, List.nil_append, pushAll, List.foldl_cons, List.length_cons]
+    congr 2
+    omega
+
+theorem gloopEv_append (size : Nat) (last r : Int) (rInt : Bool) :
+    ∀ (a b : List α) (s : GState Int α) (n : Nat),
+      gloopEv size last r rInt s n (a ++ b) =
+        ((gloopEv size last r rInt s n a).1 ++
+            (gloopEv size last r rInt (gloopEv size last r rInt s n a).2 (n + a.length) b).1,
+          (gloopEv size last r rInt (gloopEv size last r rInt s n a).2 (n + a.length) b).2) := by
+  intro a
+  induction a with
+  | nil => intro b s n; simp [gloopEv]
+  | cons x a ih =>
+    intro b s n
+    simp only [List.cons_append, gloopEv, ih, List.append_assoc, List.length_cons]
+    have : n + 1 + a.length = n + (a.length + 1) := by omega
+    rw [this]
+
+/-- `hop ≤ 0`: the loop hands out block 0 (the first `size` items `a ++ [x]`) and then nothing, however
+many items `rest` follow; the deque goes on receiving them -/
+theorem gloopEv_nonpos (a : List α) (x : α) (rest : List α) (h : Int) (hh : h ≤ 0) (rInt : Bool) :
+    gloopEv (a.length + 1) (((a.length + 1 : Nat) : Int) - 1) (((a.length + 1 : Nat) : Int) - h) rInt
+        (⟨[], 0, true⟩ : GState Int α) 0 (a ++ x :: rest) =
+      ([(a.length + 1, a ++ [x])],
+        ⟨lastSz (a.length + 1) (a ++ x :: rest), ((a.length + 1 : Nat) : Int) - h + rest.length, rInt⟩) := by
+  rw [gloopEv_append]
+  rw [gloopEv_quiet (a.length + 1) _ _ rInt a ⟨[], 0, true⟩ 0 (by simp) (by right; simp)]
+  have hpa : pushAll (a.length + 1) [] a = a := by
+    rw [pushAll_eq _ _ _ (by simp)]
+    simp [lastSz]
+  have hst : gstep (a.length + 1) (((a.length + 1 : Nat) : Int) - 1) (((a.length + 1 : Nat) : Int) - h) rInt
+      (⟨a, (0 : Int) + a.length, true⟩ : GState Int α) x =
+      (⟨a ++ [x], ((a.length + 1 : Nat) : Int) - h, rInt⟩, some (a ++ [x])) := by
+    have h1 : ¬ ((0 : Int) + a.length < 0) := by omega
+    have h2 : (0 : Int) + a.length = ((a.length + 1 : Nat) : Int) - 1 := by omega
+    have hd : dqPush (a.length + 1) a x = a ++ [x] := by simp [dqPush]
+    simp only [gstep, if_neg h1, if_pos h2, hd]
+  simp only [hpa, gloopEv, hst]
+  rw [gloopEv_quiet (a.length + 1) _ _ rInt rest _ _ (by show (0:Int) ≤ ((a.length + 1 : Nat) : Int) - h; omega)
+    (by left; show ((a.length + 1 : Nat) : Int) - 1 < ((a.length + 1 : Nat) : Int) - h; omega)]
+  simp only [Option.toList_some, List.map_cons, List.map_nil, List.nil_append, List.append_nil, Nat.zero_add]
+  rw [pushAll_eq _ _ _ (by simp)]
+  simp
